@@ -184,6 +184,125 @@ class Module:
         return "<Module %s>" % self.name
 
 
+_NEG = {ast.NotIn: ast.In, ast.IsNot: ast.Is}
+
+
+class _Canon(ast.NodeTransformer):
+    """Normal form applied to every module before anything is indexed (the rules then see one shape for several
+    spellings of the same program):
+      not (a not in b) -> a in b;  not (a is not b) -> a is b;  not (a in b) -> a not in b;  not (a is b) -> a is not b;
+      not not x -> x (only where a truth value is consumed: if / while / conditional-expression tests, operands of not / and / or);
+      (not a) or (not b) -> not (a and b) in such tests;
+      if not c: A else: B -> if c: B else: A   (plain if / else, no elif on either side; conditional expressions alike)."""
+
+    def _test(self, e):
+        # e is used for its truth value only
+        if isinstance(e, ast.UnaryOp) and isinstance(e.op, ast.Not):
+            o = e.operand
+            if isinstance(o, ast.UnaryOp) and isinstance(o.op, ast.Not):
+                return self._test(o.operand)
+            if isinstance(o, ast.Compare) and len(o.ops) == 1 and type(o.ops[0]) in (ast.NotIn, ast.IsNot, ast.In, ast.Is):
+                t = type(o.ops[0])
+                new = {ast.NotIn: ast.In, ast.IsNot: ast.Is, ast.In: ast.NotIn, ast.Is: ast.IsNot}[t]
+                return ast.copy_location(ast.Compare(left=o.left, ops=[new()], comparators=o.comparators), e)
+            e.operand = self._test(o)
+            return e
+        if isinstance(e, ast.BoolOp):
+            e.values = [self._test(v) for v in e.values]
+            if all(isinstance(v, ast.UnaryOp) and isinstance(v.op, ast.Not) for v in e.values) and len(e.values) >= 2:
+                inner = ast.copy_location(ast.BoolOp(op=ast.And() if isinstance(e.op, ast.Or) else ast.Or(), values=[v.operand for v in e.values]), e)
+                return ast.copy_location(ast.UnaryOp(op=ast.Not(), operand=inner), e)
+            return e
+        return e
+
+    def visit_If(self, n):
+        self.generic_visit(n)
+        n.test = self._test(n.test)
+        if isinstance(n.test, ast.UnaryOp) and isinstance(n.test.op, ast.Not) and n.orelse and not (len(n.orelse) == 1 and isinstance(n.orelse[0], ast.If)) \
+                and not getattr(n, "_elif", False):
+            n.test, n.body, n.orelse = n.test.operand, n.orelse, n.body
+        elif isinstance(n.test, ast.Compare) and len(n.test.ops) == 1 and type(n.test.ops[0]) in (ast.NotIn, ast.IsNot) and n.orelse and not (len(n.orelse) == 1 and isinstance(n.orelse[0], ast.If)) \
+                and not getattr(n, "_elif", False):
+            n.test.ops = [ast.In() if isinstance(n.test.ops[0], ast.NotIn) else ast.Is()]
+            n.body, n.orelse = n.orelse, n.body
+        return n
+
+    def visit_While(self, n):
+        self.generic_visit(n)
+        n.test = self._test(n.test)
+        return n
+
+    def visit_IfExp(self, n):
+        self.generic_visit(n)
+        n.test = self._test(n.test)
+        if isinstance(n.test, ast.UnaryOp) and isinstance(n.test.op, ast.Not):
+            n.test, n.body, n.orelse = n.test.operand, n.orelse, n.body
+        elif isinstance(n.test, ast.Compare) and len(n.test.ops) == 1 and type(n.test.ops[0]) in (ast.NotIn, ast.IsNot):
+            n.test.ops = [ast.In() if isinstance(n.test.ops[0], ast.NotIn) else ast.Is()]
+            n.body, n.orelse = n.orelse, n.body
+        return n
+
+    def visit_Assert(self, n):
+        self.generic_visit(n)
+        n.test = self._test(n.test)
+        return n
+
+
+def _mark_elifs(tree):
+    for n in ast.walk(tree):
+        if isinstance(n, ast.If) and len(n.orelse) == 1 and isinstance(n.orelse[0], ast.If) and n.orelse[0].col_offset == n.col_offset:
+            n.orelse[0]._elif = True
+
+
+def _inline_temporaries(tree):
+    """`t = E` immediately followed by `x = t` / `if t:` / `if not t:` / `return t`, t used nowhere else in the
+    function: the temporary is folded away (same evaluation order, same values)."""
+    for fn in ast.walk(tree):
+        if not isinstance(fn, (ast.FunctionDef, ast.AsyncFunctionDef)):
+            continue
+        counts = {}
+        for x in ast.walk(fn):
+            if isinstance(x, ast.Name):
+                counts[x.id] = counts.get(x.id, 0) + 1
+            elif isinstance(x, ast.arg):
+                counts[x.arg] = counts.get(x.arg, 0) + 10
+            elif isinstance(x, (ast.Global, ast.Nonlocal)):
+                for nm in x.names:
+                    counts[nm] = counts.get(nm, 0) + 10
+        changed = True
+        while changed:
+            changed = False
+            for node in ast.walk(fn):
+                for fld in ("body", "orelse", "finalbody"):
+                    blk = getattr(node, fld, None)
+                    if not (isinstance(blk, list) and blk and isinstance(blk[0], ast.stmt)):
+                        continue
+                    i = 0
+                    while i + 1 < len(blk):
+                        a, b = blk[i], blk[i + 1]
+                        if isinstance(a, ast.Assign) and len(a.targets) == 1 and isinstance(a.targets[0], ast.Name) and counts.get(a.targets[0].id) == 2:
+                            t = a.targets[0].id
+                            done = False
+                            if isinstance(b, ast.Assign) and isinstance(b.value, ast.Name) and b.value.id == t:
+                                b.value = a.value
+                                done = True
+                            elif isinstance(b, ast.Return) and isinstance(b.value, ast.Name) and b.value.id == t:
+                                b.value = a.value
+                                done = True
+                            elif isinstance(b, ast.If) and isinstance(b.test, ast.Name) and b.test.id == t:
+                                b.test = a.value
+                                done = True
+                            elif isinstance(b, ast.If) and isinstance(b.test, ast.UnaryOp) and isinstance(b.test.op, ast.Not) and isinstance(b.test.operand, ast.Name) and b.test.operand.id == t:
+                                b.test.operand = a.value
+                                done = True
+                            if done:
+                                del blk[i]
+                                counts[t] = 0
+                                changed = True
+                                continue
+                        i += 1
+
+
 def _attach_parents(tree):
     for node in ast.walk(tree):
         for child in ast.iter_child_nodes(node):
@@ -225,6 +344,10 @@ class Program:
                         m = Module(name, path, rel, src)
                 except SyntaxError as e:
                     raise AnalysisError("shipped file does not parse: %s: %s" % (rel, e))
+                _inline_temporaries(m.tree)
+                _mark_elifs(m.tree)
+                _Canon().visit(m.tree)
+                ast.fix_missing_locations(m.tree)
                 _attach_parents(m.tree)
                 self.modules[name] = m
                 self.units.append(rel)
